@@ -15,7 +15,13 @@
              concat_mismatch (+ and += on different qubit counts), push_front, by_name (the add_gate family), counts
              (num_gates_of_type), stats_views (into_array, Display), adjoint_inplace (Circuit::adjoint, Gate::adjoint),
              rowops (impl RowOps for Circuit), layouts (all of reverse / adjoint / + / == on circuits whose deque is wrapped)
-   note    : something the harness could not set up (QASM text rejected by the front end); counted only *)
+   note    : something the harness could not set up (QASM text rejected by the front end); counted only
+   begin / tographf (engine flag --generic): C02 "to floating-point tolerance": a unitary circuit with rz / rx / parity-phase angles that
+             are NOT multiples of pi/4 (no exact meaning in Ring; `c` keeps only the qubit count) translated in one mode / backend.
+             TLC cannot decide floating point: the harness compares its float reference evaluation of the produced DIAGRAM (ref_den,
+             the definition of spec/ZXSem.tla) with its float gate-matrix evaluation of the CIRCUIT (ref_circ, the matrices of
+             spec/Circuit.tla) - both in harness/src/refeval.rs, validated against the exact specification by
+             Trace_Tensor!RefEvalOK - at 1e-9 and logs the booleans `arity` and `close` -> L2 TranslatedFloat, NoPanic *)
 EXTENDS TraceLib, ToGraph, FiniteSets, FiniteSetsExt
 
 VARIABLES l, c, rc, sem, f0, viol, drift, stats
@@ -25,7 +31,8 @@ Init == l = 1 /\ c = Empty /\ rc = Empty /\ sem = <<>> /\ f0 = -1 /\ viol = <<>>
         /\ stats = [circuits |-> 0, translations |-> 0, ops |-> 0, nontrivial |-> 0, l1same |-> 0,
                     explicit_vars |-> 0, shared_var |-> 0, direct |-> 0, via_qasm |-> 0, simp_postsel |-> 0,
                     unknown_gate_runs |-> 0, unknown_gate_noop |-> 0, addassign_mismatch_silent |-> 0,
-                    unknown_name_silent |-> 0, notes |-> 0, wrapped_layouts |-> 0]
+                    unknown_name_silent |-> 0, notes |-> 0, wrapped_layouts |-> 0,
+                    generic_circuits |-> 0, generic_translations |-> 0, generic_close |-> 0, generic_approx |-> 0, generic_toobig |-> 0]
 
 (* SWITCH (audit item 11).  `impl AddAssign<&Circuit> for Circuit` has no qubit-count check: `a += &b` with b on another
    number of qubits silently returns a circuit (whose gates may address qubits that do not exist), while every `+`
@@ -131,6 +138,17 @@ Step(e) ==
          /\ sem' = [sig \in [CircVars(r) -> BOOLEAN] |-> CircSemV(r, sig)]
          /\ stats' = [stats EXCEPT !.circuits = @ + 1, !.explicit_vars = @ + B(HasExplicit(cc)), !.shared_var = @ + B(HasShared(cc))]
          /\ UNCHANGED <<viol, drift>>
+    [] e.k = "begin" ->
+         /\ c' = [n |-> e.c.n, gates |-> <<>>] /\ rc' = Empty /\ sem' = <<>> /\ f0' = -1
+         /\ stats' = [stats EXCEPT !.generic_circuits = @ + 1] /\ UNCHANGED <<viol, drift>>
+    [] e.k = "tographf" ->
+         /\ viol' = IF e.res = "panic" THEN Append(viol, <<l, "NoPanic">>)
+                    ELSE IF e.res = "ok" /\ ~(e.arity /\ e.close) THEN Append(viol, <<l, "TranslatedFloat">>)
+                    ELSE viol
+         /\ stats' = [stats EXCEPT !.generic_translations = @ + 1, !.generic_toobig = @ + B(e.res = "toobig"),
+                                   !.generic_close = @ + B(e.res = "ok" /\ e.close), !.generic_approx = @ + B(e.res = "ok" /\ e.approx),
+                                   !.nontrivial = @ + B(e.res = "ok")]
+         /\ UNCHANGED <<c, rc, sem, f0, drift>>
     [] e.k = "note" -> stats' = [stats EXCEPT !.notes = @ + 1] /\ UNCHANGED <<c, rc, sem, f0, viol, drift>>
     [] e.k = "tograph" ->
          IF e.res # "ok" THEN
